@@ -27,7 +27,7 @@ COMPONENTS = {'HeapDict': 'real code (matched_markets.methodology.heapdict)',
 
 KS = (0, 1, 1, 2, 2, 3, 3, 5, 8, 13)
 SHAPES = ('ascending', 'descending', 'constant', 'ties', 'random', 'below')
-FAMILIES = ('int', 'float', 'tuple', 'str', 'item', 'item_tuple')
+FAMILIES = ('int', 'float', 'tuple', 'str', 'item', 'item_tuple', 'item_eq')
 MUTATIONS = ('clear_dict', 'clear_lists', 'pop_first', 'pop_last',
              'append_junk', 'reverse_lists', 'del_key', 'sort_lists')
 
@@ -55,6 +55,18 @@ class Item:
 
   def __repr__(self):
     return 'Item(%r,#%d)' % (self.score, self.uid)
+
+
+class EqItem(Item):
+  """Ordered by score through __lt__, but == compares a coarser label (like a
+  dataclass with a compare=False field): only `<` may decide the ranking."""
+  __slots__ = ()
+
+  def __eq__(self, other):
+    return isinstance(other, EqItem) and self.uid % 3 == other.uid % 3
+
+  def __hash__(self):
+    return self.uid % 3
 
 
 # --------------------------------------------------------------------------
@@ -85,7 +97,7 @@ def _encode_level(rng, family, level, uid):
     return [level // 4, level % 4]
   if family == 'str':
     return '%05d' % (level + 5000)
-  if family == 'item':
+  if family in ('item', 'item_eq'):
     return {'s': level, 'u': uid}
   if family == 'item_tuple':
     return {'s': [level // 3, level % 3], 'u': uid}
@@ -184,6 +196,8 @@ def _decode_value(family, v):
     return tuple(v)
   if family == 'item':
     return Item(v['s'], v['u'])
+  if family == 'item_eq':
+    return EqItem(v['s'], v['u'])
   if family == 'item_tuple':
     return Item(tuple(v['s']), v['u'])
   return v
